@@ -508,8 +508,23 @@ def check_run_sync(ck):
     ck.floor("C38.run-sync", len(fcalls), 1, "calls of the user function")
     for nd, c in fcalls:
         h = q.protected_by(pm, c, "Exception")
-        ok = h is not None and any(q.is_call(x, "future_set_exc_info") for st in h.body for x in ast.walk(st)) and any(isinstance(st, ast.Assign) and q.unparse(st.targets[0]) == cell for st in h.body)
-        ck.ob("C38.run-sync", rn, c, ok, "an exception raised by the function is captured in the cell's future (and re-raised by run_sync through result())")
+        if h is None:
+            ck.ob("C38.run-sync", rn, c, False, "an exception raised by the function is caught in run() (it must reach run_sync's caller through the future, not escape into the loop)")
+            continue
+        fails = [x for st in h.body for x in ast.walk(st) if q.is_call(x, "future_set_exc_info", "future_set_exception_unless_cancelled") or (isinstance(x, ast.Call) and isinstance(x.func, ast.Attribute) and x.func.attr == "set_exception")]
+        reraises = any(isinstance(x, ast.Raise) for st in h.body for x in ast.walk(st))
+        # the failed future reaches the cell: stored directly, or through a local that is stored into the cell
+        flows = False
+        for x in fails:
+            tgt = x.args[0] if not (isinstance(x.func, ast.Attribute) and x.func.attr == "set_exception") else x.func.value
+            t = q.unparse(tgt)
+            if t == cell:
+                flows = True
+            elif isinstance(tgt, ast.Name) and any(isinstance(st, ast.Assign) and q.unparse(st.targets[0]) == cell and q.dotted(st.value) == tgt.id for st in own_walk(rn.node)):
+                flows = True
+        if not fails and not reraises:
+            raise AnalysisError("%s: handler for the function's exception in an unrecognised shape" % rn.site(h))
+        ck.ob("C38.run-sync", rn, c, bool(fails) and flows and not reraises, "an exception raised by the function is captured in the cell's future (and re-raised by run_sync through result())")
     af = node_counts(rn, lambda x: method_call_on(x, "self", "add_future") and len(x.args) == 2 and q.unparse(x.args[0]) == cell)
     normal, _ = exit_states(rn.cfg, 0, lambda nd, v: min(2, v + af.get(nd.id, 0)))
     for _f, k in normal:
